@@ -25,6 +25,10 @@ GRAMS = {
     "fsg-unknown-word": lambda d: "fsgfile " + os.path.join(d, "goforward3.fsg"),
     "no-public": lambda d: "jsgf " + decmatrix.hx("#JSGF V1.0;\ngrammar g;\n<s> = go forward;\n"),
     "jsgffile": lambda d: "jsgffile " + os.path.join(d, "goforward.gram"),
+    # empty-string arguments, and a grammar whose only sentence is the empty one
+    "align-empty": lambda d: "align " + decmatrix.hx(""),
+    "jsgf-empty": lambda d: "jsgf " + decmatrix.hx(""),
+    "jsgf-null-only": lambda d: "jsgf " + decmatrix.hx("#JSGF V1.0;\ngrammar g;\npublic <s> = <NULL>;\n"),
     "jsgffile-missing": lambda d: "jsgffile " + os.path.join(d, "no-such-grammar.gram"),
 }
 WORDS = {"duplicate": ("forward", "F AO R W ER D"), "bad-phone": ("zzbad", "G QQ"), "empty-word": ("", "G OW"),
